@@ -4,6 +4,7 @@ the current tree; the interleaving semantics, the shared-object models and the p
 protocol.py / here.  A change that reorders, drops or re-conditions one of the operations changes
 the extracted thread programs and the query result."""
 import itertools
+import os
 import re
 
 import z3
@@ -480,7 +481,7 @@ def exec_facts(ctx):
 
 
 def p_exec(ctx, tier):
-    """executor protocol, all interleavings: 2 waker threads (each one run of the schedule function:
+    """executor protocol, all interleavings: 2 (thorough: 3) waker threads (each one run of the schedule function:
     enqueue / swap(notified) / conditional ping, in the order extracted from the code) against the
     loop (drain the eventfd, flag writes and dequeues in the extracted order, <= 2 dequeues per
     round, self-ping on an exhausted batch, 3 rounds): no reachable state in which every waker has
@@ -489,7 +490,7 @@ def p_exec(ctx, tier):
     facts = exec_facts(ctx)
     out = {"queries": 0, "solver_s": 0.0}
     failing, cex, witness = [], "", False
-    rounds, maxb = (3, 2) if tier == "quick" else (4, 2)
+    rounds, maxb, nwakers = (3, 2, 2) if tier == "quick" else tuple(int(x) for x in os.environ.get("VERIF_PEXEC", "5,3,4").split(","))
 
     def waker(name, val):
         ops = []
@@ -541,13 +542,14 @@ def p_exec(ctx, tier):
             lops.append(P.Op("efd_write", val=vp, cond=(lambda get, recvs=recvs: z3.And(*[get(o, "ok") for o in recvs]))))
         layout.append({"wait": base, "read": base + 1, "recvs": recvs, "end": len(lops) - 1})
     loop = P.Thread("loop", lops, may_stop=True)
-    ex = P.Execution([waker("wakerA", 1), waker("wakerB", 2), loop], nflags=1, flag_init=[False], senders=2)
-    L = 2
+    wakers = [waker("waker%s" % "ABCD"[i], i + 1) for i in range(nwakers)]
+    ex = P.Execution(wakers + [loop], nflags=1, flag_init=[False], senders=nwakers)
+    L = nwakers
     for lay in layout:
         ex.s.add(z3.Implies(ex.executed(L, lay["read"]), ex.ret(L, lay["wait"], "efd_ready")))
         # a round, once its drain happened, runs to its end (process_events is not interrupted)
     wend = ex.world_at_end()
-    done = z3.And(ex.thread_done(0), ex.thread_done(1))
+    done = z3.And(*[ex.thread_done(i) for i in range(nwakers)])
     rounds_left = z3.Not(ex.executed(L, layout[-1]["wait"]))
     for q_ in (lambda: ex.check(done, wend.qlen == 0),):
         sat, m, dt = q_()
